@@ -155,4 +155,30 @@ def genEvaluationKeyR (qsAll qsQ qsP : List Nat) (n w : Nat) (sIn sOut : RPoly)
   let shape := gadgetShape qsAll (qsQ.length - 1) qsP.length w
   genEvaluationKey (pgElt qsQ qsP n w) sIn sOut (reshape shape flat)
 
+/-! ## The metadata record of a key and its derived forms -/
+
+/-- what identifies the FORMAT of an evaluation key besides its rows: `BaseTwoDecomposition`, levels
+    (`lp = -1`: no `P`), degree (0 = compressed), digit counts, and for Galois keys the Galois element and
+    `NthRoot`; the seed of a compressed key. -/
+structure KeyMeta where
+  w : Nat
+  lq : Nat
+  lp : Int
+  deg : Nat
+  nI : Nat
+  nJ : List Nat
+  galEl : Nat
+  nthRoot : Nat
+  seed : List Nat
+  deriving Repr, BEq, DecidableEq
+
+/-- `CopyNew`, serialisation round trips, fetching a key back from a `MemEvaluationKeySet`, `ShallowCopy`:
+    every derived form of a key is THE SAME key — identity on the record (and on the rows). -/
+def KeyMeta.derived (m : KeyMeta) : KeyMeta := m
+
+/-- the record is consistent with the shape the parameters prescribe for `(lq, lp, w)` -/
+def KeyMeta.wellFormed (qsAll : List Nat) (m : KeyMeta) : Bool :=
+  let nP := if m.lp < 0 then 0 else m.lp.toNat + 1
+  m.nJ == gadgetShape qsAll m.lq nP m.w && m.nI == m.nJ.length
+
 end Lattigo.KS
